@@ -16,7 +16,7 @@ REQUIRED = ["bn: distance same with/without matching", "bn: matching is a certif
             "ws: distance same with/without matching", "ws: matching is a certificate", "ws: sum of row costs == distance"]
 RULE = ("C01/C02 generators restricted to finite diagrams (tie-heavy integer grids, equal points, empties, sizes to 60 "
         "quick / 150 thorough), each case replayed under several hash seeds; the set of distinct matchings returned "
-        "across hash seeds is counted (configuration axis). non-trivial = matching has >=3 rows and contains a -1 "
+        "across hash seeds is counted (configuration axis); ~30% of the cases continue with a history: the same array / list objects are modified in place (one death moved, everything doubled, rows reversed) and queried again. non-trivial = matching has >=3 rows and contains a -1 "
         "(diagonal pairing); distinct = digest of the input pair")
 ASSUMPTIONS = ["certificate checker written from the statement; no tie-break assumed: any certificate passes",
                "empty diagram == one-point diagram (0,0) with index 0 (statement)",
@@ -85,4 +85,39 @@ def run_case(ctx, k, rng):
                           distance=d, float_distance=d0, form=type(fa).__name__)
             except Exception as e:
                 ctx.exception("%s: list / integer input gives a certificate of the same distance" % kind, e)
+    # history: the same array objects, modified in place between calls (an interactive session, a loop that perturbs a
+    # diagram): every call must answer for the values the arrays hold when it is made
+    if len(S) >= 1 and len(T) >= 1 and A.size and B.size and sc > 1e-100 and rng.random() < 0.3:   # (squares of the update must not underflow)
+        PA, PB = np.array(A, float), np.array(B, float)
+        if rng.random() < 0.3:
+            PA, PB = PA.tolist(), PB.tolist()
+        for kind, fn, tolrow in (("bn", bottleneck, 1e-9 * sc), ("ws", wasserstein, 1e-7 * sc)):
+            try:
+                ctx.ran(3)
+                first = fn(PA, PB, matching=bool(rng.integers(0, 2)))
+                # in-place update, same objects, same number of points
+                how = int(rng.integers(0, 4))
+                i = int(rng.integers(0, len(PA)))
+                if isinstance(PA, list):
+                    PA[i] = [PA[i][0], PA[i][1] + float(rng.uniform(0.5, 5.0)) * sc]
+                elif how == 0:
+                    PA[i, 1] += float(rng.uniform(0.5, 5.0)) * sc
+                elif how == 1:
+                    PA *= 2.0
+                elif how == 2:
+                    PA[:] = PA[::-1].copy(); PB[0, 1] += 0.25 * sc
+                else:
+                    PB[int(rng.integers(0, len(PB))), 1] += float(rng.uniform(0.5, 5.0)) * sc
+                d1, rows = fn(PA, PB, matching=True)
+                d2 = fn(np.array(PA, float).copy(), np.array(PB, float).copy())
+                sc2 = scale_of(np.array(PA, float), np.array(PB, float)); tolrow = (1e-9 if kind == "bn" else 1e-7) * sc2
+                S2, T2 = placeholder(OM.finite_rows(np.array(PA, float))), placeholder(OM.finite_rows(np.array(PB, float)))
+                rows = np.asarray(rows).reshape(-1, 3)
+                okc, why, total = OM.certify(S2, T2, rows.tolist(), kind, tolrow)
+                t = 1e-9 * sc2 if kind == "bn" else 1e-12 * sc2 * (len(rows) + 1)
+                ctx.check("%s: after an in-place update of the same arrays the matching certifies the new distance" % kind,
+                          okc and float(d1) == float(d2) and abs(total - float(d1)) <= t, reason=why, with_matching=d1, fresh_copy=d2,
+                          total=total, before_update=first if not isinstance(first, tuple) else first[0], update=how)
+            except Exception as e:
+                ctx.exception("%s: after an in-place update of the same arrays the matching certifies the new distance" % kind, e)
     ctx.result(digests)     # bottleneck matchings may legitimately differ between hash seeds: recorded, not judged
